@@ -158,6 +158,12 @@ type nsReplica struct {
 	queuedHint uint64
 	procHint   uint64
 	ticksSeen  int
+	// what SaveRaftState calls that have returned made durable for this replica (the
+	// log store survives an in-process restart): C04 send-before-save monitor
+	durState pb.State
+	durVotes map[uint64]uint64
+	durLast  uint64 // highest entry index ever saved
+	durSnap  uint64 // highest snapshot index ever saved through SaveRaftState
 	// snapshot worker pool state of the shard (see nsPipeline)
 	saveReady, recoverReady   bool
 	hasSaveJob, hasRecoverJob bool
@@ -533,7 +539,62 @@ func (s *nsSim) stopReplica(r *nsReplica) {
 // ---------------------------------------------------------------------------
 // network
 
+// noteDurable records what a SaveRaftState call that has returned made durable.
+func (r *nsReplica) noteDurable(ud pb.Update) {
+	if !pb.IsEmptyState(ud.State) {
+		r.durState = ud.State
+		if r.durVotes == nil {
+			r.durVotes = map[uint64]uint64{}
+		}
+		r.durVotes[ud.State.Term] = ud.State.Vote
+	}
+	if n := len(ud.EntriesToSave); n > 0 && ud.EntriesToSave[n-1].Index > r.durLast {
+		r.durLast = ud.EntriesToSave[n-1].Index
+	}
+	if !pb.IsEmptySnapshot(ud.Snapshot) && ud.Snapshot.Index > r.durSnap {
+		r.durSnap = ud.Snapshot.Index
+	}
+}
+
+// checkDurable: C04, persist before send. A message leaves a replica only when the
+// term, vote and entries it implies are durable (Replicate is exempt from the entry
+// rule - thesis 10.2.1 - but not from the term rule and not with a commit index beyond
+// its own durable log; pre-vote messages carry a prospective term by design).
+func (s *nsSim) checkDurable(from *nsReplica, m pb.Message) {
+	if m.Type == pb.RequestPreVote || m.Type == pb.RequestPreVoteResp || m.Term == 0 {
+		return
+	}
+	d := from.durState
+	if m.Term > d.Term {
+		s.violate("nodesim-term-not-durable", "r%d sends %s to r%d with term %d, its durable term is %d (vote %d)", from.id, m.Type, m.To, m.Term, d.Term, d.Vote)
+		return
+	}
+	switch m.Type {
+	case pb.RequestVoteResp:
+		if !m.Reject && d.Term == m.Term {
+			if v, ok := from.durVotes[m.Term]; !ok || v != m.To {
+				s.violate("nodesim-vote-not-durable", "r%d grants its vote to r%d in term %d, its durable vote for that term is %d (recorded %t)", from.id, m.To, m.Term, v, ok)
+			}
+		}
+	case pb.RequestVote:
+		if d.Term == m.Term {
+			if v, ok := from.durVotes[m.Term]; !ok || v != from.id {
+				s.violate("nodesim-vote-not-durable", "r%d requests votes in term %d, its durable vote for that term is %d (recorded %t)", from.id, m.Term, v, ok)
+			}
+		}
+	case pb.ReplicateResp:
+		if !m.Reject && m.Term >= d.Term && m.LogIndex > from.durLast && m.LogIndex > from.durSnap && m.LogIndex > d.Commit {
+			s.violate("nodesim-ack-not-durable", "r%d acknowledges index %d, its durable log ends at %d (snapshot %d)", from.id, m.LogIndex, from.durLast, from.durSnap)
+		}
+	case pb.Replicate, pb.Heartbeat:
+		if m.Commit > from.durLast && m.Commit > from.durSnap {
+			s.violate("nodesim-commit-advertised-before-durable", "r%d sends %s with commit index %d, its own durable log ends at %d (snapshot %d)", from.id, m.Type, m.Commit, from.durLast, from.durSnap)
+		}
+	}
+}
+
 func (s *nsSim) onSend(from *nsReplica, m pb.Message) {
+	s.checkDurable(from, m)
 	switch m.Type {
 	case pb.RequestVote, pb.RequestPreVote:
 		from.campaign = true
@@ -810,6 +871,7 @@ func (s *nsSim) stepReplica(r *nsReplica) {
 		if err := s.ldb.SaveRaftState([]pb.Update{ud}, 1); err != nil {
 			panic(err)
 		}
+		r.noteDurable(ud)
 		if !pb.IsEmptySnapshot(ud.Snapshot) {
 			// engine.onSnapshotSaved
 			if err := n.removeSnapshotFlagFile(ud.Snapshot.Index); err != nil {
